@@ -669,5 +669,5 @@ class ElementWalker(object):
         return (
             element.tag == 'meta'
             and element.attrib.get('name', '').lower() == 'robots'
-            and 'nofollow' in element.attrib.get('value', '').lower()
+            and 'nofollow' in element.attrib.get('content', '').lower()
         )
